@@ -203,18 +203,14 @@ impl QueryNode {
             // Map metadata-selected chunks into the logical `metrics` table used by SQL.
             // Execute query with or without adaptive indexing while holding a stable
             // `metrics` table binding for this request.
-            let results = self
-                .engine
-                .with_metrics_table(&chunk_paths, || async {
-                    if let Some(ref controller) = self.adaptive_index_controller {
-                        self.engine
-                            .execute_with_indexes(sql, tenant_id, controller.clone())
-                            .await
-                    } else {
-                        self.engine.execute(sql).await
-                    }
-                })
-                .await?;
+            let df = self.engine.plan_on_chunks(&chunk_paths, sql).await?;
+            let results = if let Some(ref controller) = self.adaptive_index_controller {
+                self.engine
+                    .execute_dataframe_with_indexes(df, tenant_id, controller.clone())
+                    .await?
+            } else {
+                df.collect().await?
+            };
 
             // Deduplicate if any shard is in dual-write phase
             let deduped = if needs_dedup {
